@@ -371,6 +371,9 @@ pub struct RunCfg {
     pub tasks: u8,
     /// callers' memory between two inaccessible pages instead of canary zones
     pub strict_arena: bool,
+    /// every oracle evaluation (each of which constructs and uses fresh instances, i.e. acts on the process
+    /// itself) is postponed to the end of the history, so that nothing but the history touches process-wide state
+    pub deferred: bool,
 }
 
 impl RunCfg {
@@ -380,7 +383,7 @@ impl RunCfg {
             let fam = &reg.families[*f];
             m.insert(fam.name.to_string(), json!(vs.iter().map(|&v| fam.variants[v].variant).collect::<Vec<_>>()));
         }
-        json!({"mask_aes": self.mask, "tasks": self.tasks, "strict_arena": self.strict_arena, "variants": Value::Object(m)})
+        json!({"mask_aes": self.mask, "tasks": self.tasks, "strict_arena": self.strict_arena, "oracles_deferred": self.deferred, "variants": Value::Object(m)})
     }
     pub fn from_json(v: &Value, reg: &Registry) -> Option<RunCfg> {
         let mut variants = BTreeMap::new();
@@ -398,6 +401,7 @@ impl RunCfg {
             mask: v.get("mask_aes")?.as_bool()?,
             tasks: v.get("tasks")?.as_u64()? as u8,
             strict_arena: v.get("strict_arena").and_then(|x| x.as_bool()).unwrap_or(false),
+            deferred: v.get("oracles_deferred").and_then(|x| x.as_bool()).unwrap_or(false),
         })
     }
 }
@@ -497,6 +501,8 @@ pub struct World<'a> {
     /// construct instances and so warm up any process-global state); calls are recorded and
     /// judged by `settle` after the history has ended
     pub deferred: bool,
+    /// the run configuration asked for it (as opposed to the cold-start engine)
+    pub cfg_deferred: bool,
     pub pending: Vec<Pending>,
     /// print every operation (as JSON, flushed) before applying it: lets a parent process
     /// reconstruct the history of a child that dies inside cipher code
@@ -530,6 +536,7 @@ impl<'a> World<'a> {
         cpufeatures::sim::bump_epoch();
         cpufeatures::sim::set_mask(cfg.mask);
         let mask = cfg.mask;
+        let want_deferred = cfg.deferred;
         World {
             reg,
             anchors,
@@ -547,7 +554,8 @@ impl<'a> World<'a> {
             calls: BTreeMap::new(),
             task_order: Digest::default(),
             notes: Vec::new(),
-            deferred: false,
+            deferred: want_deferred,
+            cfg_deferred: want_deferred,
             pending: Vec::new(),
             trace: false,
         }
@@ -752,6 +760,11 @@ impl<'a> World<'a> {
         self.slots.sync(&live);
         match &r {
             Ok(so) => {
+                if self.trace {
+                    let mut d = Digest::default();
+                    d.bytes(&so.out);
+                    println!("@res {} applied={} out_len={} out={:016x}", self.step, so.applied, so.out.len(), d.finish());
+                }
                 if so.applied {
                     self.task_order.u64(op.task() as u64);
                     self.h_all.str(op.kind());
@@ -1468,11 +1481,12 @@ impl<'a> World<'a> {
                     self.step = p.step;
                     let mut v = self.viol(
                         "C15",
-                        "cold-start",
+                        if self.cfg_deferred { "undisturbed-history" } else { "cold-start" },
                         fam,
                         t.variant,
                         format!(
-                            "in a process that had constructed nothing else before this history, {} {} {} n={} (step {}, route=[{}], mask_aes={}, key={}) returned bytes that differ from a fresh instance evaluated after the history{}",
+                            "{}, {} {} {} n={} (step {}, route=[{}], mask_aes={}, key={}) returned bytes that differ from a fresh instance evaluated after the history{}",
+                            if self.cfg_deferred { "in a history during which no oracle touched the process (all reference evaluations postponed to its end)" } else { "in a process that had constructed nothing else before this history" },
                             t.name, p.dir.name(), p.shape.name(), p.n, p.step, route_s.join(","), p.mask, hex(&p.inst.key),
                             out.as_ref().err().map(|e| format!(" PANIC: {}", e)).unwrap_or_default()
                         ),
